@@ -91,7 +91,7 @@ func ParseWriteSingleRegisterRequestTCP(data []byte) (*WriteSingleRegisterReques
 		tmpErr := NewErrorParseTCP(ErrIllegalFunction, "received function code in packet is not 0x06")
 		tmpErr.Packet.TransactionID = header.TransactionID
 		tmpErr.Packet.UnitID = unitID
-		tmpErr.Packet.Function = FunctionWriteSingleCoil
+		tmpErr.Packet.Function = FunctionWriteSingleRegister
 		return nil, tmpErr
 	}
 	return &WriteSingleRegisterRequestTCP{
